@@ -174,7 +174,7 @@ def run_lockstep(ctx: Ctx) -> None:
     prog = ctx.prog
     IBm = {n: prog.func("deepali.data.image", f"ImageBatch.{n}") for n in
            ("crop", "pad", "center_crop", "center_pad", "region_of_interest", "narrow", "avg_pool", "resize", "resample",
-            "downsample", "upsample", "sample", "_make_instance", "grid_")}
+            "downsample", "upsample", "sample", "conv", "_make_instance", "grid_")}
     for f in IBm.values():
         ctx.fn(f)
     for n in ("crop", "pad", "center_crop", "center_pad", "region_of_interest", "avg_pool"):
@@ -248,6 +248,7 @@ def run_lockstep(ctx: Ctx) -> None:
             # sampling on other grids
             _sample_obligations(ctx, env, tag, IBm["sample"])
             _resample_obligations(ctx, shape, ac, tag, IBm["resample"])
+            _conv_obligations(ctx, D, ac, tag, IBm["conv"])
             # interpolation flag pairing (own environment: sizes within the property's quantifier size / 2^levels >= 2)
             env_i = BatchEnv(ctx, (4, 6) if D == 2 else (4, 4, 6), N=2, C=1, ac=ac)
             size_i = tuple(reversed(env_i.shape))
@@ -288,6 +289,28 @@ def run_lockstep(ctx: Ctx) -> None:
                     r = envf.it.method(envf.batch, op, *args, **kw)
                     return _check_index_only(envf, r, fill, mode)
                 _guard(ctx, "T13.index-only", f"{tag},fractional-size:{op}:{desc}", IBm[op], f"op={op} {desc} {tag},fractional-size", thf)
+
+
+def _conv_obligations(ctx: Ctx, D: int, ac: bool, tag: str, fC) -> None:
+    """ImageBatch.conv with per-axis kernels of different extent and no padding: the grid is cropped by what the data lost, per axis."""
+    ctx.rule("T13.conv", "ImageBatch.conv(kernel, padding=0) with symmetric normalised 1-D kernels of different extent per axis (3 and 5 taps, "
+                         "None = axis not filtered) and with one separable kernel: the returned grid of each image has the shape of the "
+                         "filtered data and a world-linear intensity ramp is returned as the same ramp at the returned grid's positions "
+                         "(a symmetric normalised kernel reproduces linear functions)")
+    k3 = STensor.from_flat([Fraction(1, 4), Fraction(1, 2), Fraction(1, 4)], [3])
+    k5 = STensor.from_flat([Fraction(1, 16), Fraction(4, 16), Fraction(6, 16), Fraction(4, 16), Fraction(1, 16)], [5])
+    shape = (6, 7) if D == 2 else (5, 6, 7)
+    if D == 2:
+        cases = [("[k3, k5]", [k3, k5]), ("[k5, k3]", [k5, k3]), ("[None, k5]", [None, k5]), ("k3 (separable)", k3)]
+    else:
+        cases = [("[k3, None, k5]", [k3, None, k5]), ("[k5, k3, k3]", [k5, k3, k3])]
+    for desc, kern in cases:
+        def th(kern=kern):
+            env = BatchEnv(ctx, shape, N=2, C=1, ac=ac)
+            r = env.it.method(env.batch, "conv", [k.clone() if isinstance(k, STensor) else k for k in kern] if isinstance(kern, list) else kern.clone(),
+                              padding=0)
+            return _check_ramp(env, r)
+        _guard(ctx, "T13.conv", f"{tag}:{desc}", fC, f"op=conv kernel={desc} padding=0 {tag}", th)
 
 
 def _resample_obligations(ctx: Ctx, shape, ac: bool, tag: str, fR) -> None:
